@@ -344,3 +344,68 @@ def legacy_chain(seed, name="legacy", tip=44, peg_requests=True):
                         s.convert(h, u, t, max(1, b // rnd.choice([2, 4, 9])), d, track=ok)
     s.tip(tip)
     return s
+
+
+def snapshot_gap_chain(seed, name="snapgap", at=288, pip10=None):
+    """Live era: conversions are pending while a staking-snapshot height (multiple of 144, >= 2.0.2) records no rates.
+    The pending conversions must wait for the next rated block (and the snapshot payout uses the latest earlier rates)."""
+    rnd = random.Random(seed * 2741 + 5)
+    sc = dict(LIVE)
+    if pip10:
+        sc["PIP10"] = pip10
+    s = Scn(name, sched=sc, seed=seed, avg=4)
+    users = [s.key("A%d" % i) for i in range(1, 5)]
+    h = live_preamble(s, users, fund_peg=1000 * 10**8)
+    for u in users:
+        s.convert(h, u, "PEG", 200 * 10**8, "pUSD")
+    s.grade(h); h += 1
+    s.grade(h)
+    for hh in (143, 144, 145):
+        s.grade(hh)
+    r1 = {"PEG": RATES["PEG"] + 10**5, "pXBT": RATES["pXBT"] - 10**9}
+    r2 = {"PEG": RATES["PEG"] - 2 * 10**5, "pXBT": RATES["pXBT"] + 3 * 10**9}
+    s.grade(at - 3, rates=r1)
+    s.grade(at - 2, rates=r1)
+    s.convert(at - 2, users[0], "pUSD", rnd.randint(1, 10**9), "pXBT", track=False)      # executes at at-1
+    s.grade(at - 1, rates=r1)
+    s.convert(at - 1, users[1], "pUSD", rnd.randint(1, 10**9), "pXBT", track=False)      # must wait: `at` has no rates
+    s.convert(at - 1, users[2], "PEG", 10**8, "pUSD", track=False)
+    s.block(at)                                                                           # snapshot height without OPR / SPR
+    s.convert(at, users[3], "pUSD", 12345, "pXBT", track=False)                           # submitted in the unrated block
+    s.transfer(at, users[0], "PEG", [(users[1], 1000)], track=False)
+    s.grade(at + 1, rates=r2)                                                             # everything pending executes here, at r2
+    s.grade(at + 2, rates=r2)
+    s.tip(at + 3)
+    return s
+
+
+def peg_window_chain(seed, name="pegwin", dups=True):
+    """All-era schedule, focused on the bank-limited PEG conversions: requests in (almost) every block of
+    [ConvLimit, V20), unrated blocks in between (per-height sets before V4), copies of pending requests inside the
+    unrated blocks, and requests submitted in the last blocks before 2.0 (which must be refused from 2.0 on)."""
+    rnd = random.Random(seed * 3571 + 9)
+    L = LEG
+    s = Scn(name, sched=L, seed=seed, avg=4, assets=["PEG", "pUSD", "pFCT", "pXBT"])
+    users = [s.key("A%d" % i) for i in range(1, 7)]
+    unrated = {13, 14, 18, 23}
+    for h in range(1, 28):
+        n = 10 if h < L["GradingV2"] else 25
+        if h not in unrated:
+            s.grade(h, n=n, spr=h >= L["V20"] + 2)
+        if h <= 3:
+            for u in users:
+                s.burn(h, u, 500 * 10**8)
+        if h == L["TxConv"]:
+            for u in users:
+                s.convert(h, u, "pFCT", 200 * 10**8, "pUSD", track=False)
+        if L["ConvLimit"] - 1 <= h <= L["V20"]:
+            ids = []
+            for i, u in enumerate(users):
+                if (h + i) % 3 != 0:
+                    e = s.convert(h, u, rnd.choice(["pFCT", "pUSD"]), rnd.randint(1, 30) * 10**8, "PEG", track=False)
+                    ids.append(e["id"])
+            if dups and h + 1 in unrated and ids:
+                s.dup(h + 1, ids[0])
+                s.dup(h + 1, ids[-1])
+    s.tip(28)
+    return s
